@@ -874,6 +874,9 @@ func (e *Engine) execInstr(st *State, instr ssa.Instruction) {
 		if !a.NonNil {
 			st.guard("nil", sNot(sEq(a.T, "null")), in.Pos())
 		}
+		if fa, ok := in.Addr.(*ssa.FieldAddr); ok {
+			e.guardedWrite(st, fa, in.Pos())
+		}
 		e.checkAssigns(st, a, in.Val.Type(), in.Pos())
 		if a.Root == "" || !st.private[a.Root] {
 			st.escape(v)
@@ -921,6 +924,11 @@ func (e *Engine) execInstr(st *State, instr ssa.Instruction) {
 	case *ssa.Lookup:
 		e.lookup(st, in)
 	case *ssa.MapUpdate:
+		if u, ok := in.Map.(*ssa.UnOp); ok && u.Op == token.MUL {
+			if fa, ok := u.X.(*ssa.FieldAddr); ok {
+				e.guardedWrite(st, fa, in.Pos())
+			}
+		}
 		e.mapUpdate(st, in)
 	case *ssa.Range:
 		x := st.operand(in.X)
@@ -1241,6 +1249,34 @@ func (e *Engine) convert(st *State, x Val, from, to types.Type, pos token.Pos) V
 	return st.freshVal(to, "conv")
 }
 
+
+// guardedWrite: a WRITE to a field under a guardedby clause (a store to the field, an update of the map it holds)
+// needs the lock held exclusively - a read hold is not enough (other readers may be inside their sections).
+func (e *Engine) guardedWrite(st *State, fa *ssa.FieldAddr, pos token.Pos) {
+	if len(e.guards) == 0 {
+		return
+	}
+	n := namedOf(fa.X.Type())
+	if n == nil || n.Obj().Pkg() == nil {
+		return
+	}
+	stt, ok := n.Underlying().(*types.Struct)
+	if !ok {
+		return
+	}
+	key := n.Obj().Pkg().Path() + "." + n.Obj().Name() + "." + stt.Field(fa.Field).Name()
+	g, ok := e.guards[key]
+	if !ok {
+		return
+	}
+	x := st.operand(fa.X)
+	if x.Root != "" {
+		return // object under construction by this activation
+	}
+	m := "(fld " + x.T + " " + intLit(int64(g.mutexIdx)) + ")"
+	st.addCheck(&Check{Name: fmt.Sprintf("%s.ghost.guardw[%s.%s]@%s", e.curFunc, n.Obj().Name(), stt.Field(fa.Field).Name(), shortPos(posStr(e, pos))), Kind: "ghost.guard",
+		Goal: "(select " + st.heap("G$held") + " " + m + ")", Pos: posStr(e, pos), Tags: g.tags, Func: e.curFunc, Clause: "guardedby " + g.typ + ": a write needs the lock held exclusively"})
+}
 
 // ---------- cancellable: blocking channel operations must be interruptible by the context ----------
 
